@@ -29,17 +29,21 @@ class TST_P {
     [Static] uint32 SEcho(
         [In] string s, [In] uint8 a[], [In] TST_P REF r, [In, EmbeddedInstance("TST_E")] string e, [In] boolean b,
         [In] datetime d, [In] real64 x, [In] sint64 i, [In] char16 c, [In] string sa[], [In] TST_P REF ra[],
+        [In, EmbeddedInstance("TST_E")] string ea[],
         [In(false), Out] string os, [In(false), Out] uint8 oa[], [In(false), Out] TST_P REF orf,
         [In(false), Out, EmbeddedInstance("TST_E")] string oe, [In(false), Out] boolean ob,
         [In(false), Out] datetime od, [In(false), Out] real64 ox, [In(false), Out] sint64 oi,
-        [In(false), Out] char16 oc, [In(false), Out] string osa[], [In(false), Out] TST_P REF ora[]);
+        [In(false), Out] char16 oc, [In(false), Out] string osa[], [In(false), Out] TST_P REF ora[],
+        [In(false), Out, EmbeddedInstance("TST_E")] string oea[]);
     uint32 IEcho(
         [In] string s, [In] uint8 a[], [In] TST_P REF r, [In, EmbeddedInstance("TST_E")] string e, [In] boolean b,
         [In] datetime d, [In] real64 x, [In] sint64 i, [In] char16 c, [In] string sa[], [In] TST_P REF ra[],
+        [In, EmbeddedInstance("TST_E")] string ea[],
         [In(false), Out] string os, [In(false), Out] uint8 oa[], [In(false), Out] TST_P REF orf,
         [In(false), Out, EmbeddedInstance("TST_E")] string oe, [In(false), Out] boolean ob,
         [In(false), Out] datetime od, [In(false), Out] real64 ox, [In(false), Out] sint64 oi,
-        [In(false), Out] char16 oc, [In(false), Out] string osa[], [In(false), Out] TST_P REF ora[]);
+        [In(false), Out] char16 oc, [In(false), Out] string osa[], [In(false), Out] TST_P REF ora[],
+        [In(false), Out, EmbeddedInstance("TST_E")] string oea[]);
     [Static] uint32 SOut([In] uint32 seed,
         [In(false), Out] boolean ob, [In(false), Out] boolean oba[], [In(false), Out] string os,
         [In(false), Out] string osa[], [In(false), Out] uint8 oa[], [In(false), Out] sint64 oi,
@@ -64,7 +68,7 @@ class TST_Q : TST_P { [Description("extra \\"q\\" & <x>")] string extra; };
 '''
 NSS = ['root/a', 'root/b']
 ECHO = {'s': 'os', 'a': 'oa', 'r': 'orf', 'e': 'oe', 'b': 'ob', 'd': 'od', 'x': 'ox', 'i': 'oi', 'c': 'oc', 'sa': 'osa',
-        'ra': 'ora'}
+        'ra': 'ora', 'ea': 'oea'}
 OUT_TYPES = {'os': ('string', False, None), 'oa': ('uint8', True, None), 'orf': ('reference', False, None),
              'oe': ('string', False, 'instance'), 'ob': ('boolean', False, None), 'od': ('datetime', False, None),
              'ox': ('real64', False, None), 'oi': ('sint64', False, None), 'oc': ('char16', False, None),
@@ -607,16 +611,21 @@ def repo_state(fake):
     return out
 
 
-def run_http_history(sizes, seed, ops, default_namespace, fault, content_type=None):
+def run_http_history(sizes, seed, ops, default_namespace, fault, content_type=None, creds=None, logging_on=False):
     """the history through a REAL loopback HTTP server in front of the facade (whole client stack incl. urllib3
     retry logic), with lost replies as given by `fault` = {request index: 'drop' | 'truncate'}.
     Returns (steps, requests seen per step, repository states (server, twin))"""
     A = build(sizes, seed)
     B = build(sizes, seed)
     B.default_namespace = default_namespace
-    srv = facade.HttpFacade(A, fault=fault, content_type=content_type)
+    srv = facade.HttpFacade(A, fault=fault, content_type=content_type, auth=creds)
     try:
-        client = srv.client(default_namespace=default_namespace)
+        client = srv.client(default_namespace=default_namespace, creds=creds)
+        if logging_on:
+            # "wire = direct" must also hold with HTTP/API logging switched on for the connection (the log recorder
+            # sees the request headers and masks the password in ITS copy)
+            import pywbem
+            pywbem.configure_logger('all', log_dest=None, detail_level='all', connection=client)
         direct_log = []
         orig_i, orig_m = B._imethodcall, B._methodcall
         spy_calls(B, direct_log)
